@@ -575,7 +575,7 @@ def rebind_tree(rng, g, w_outer, w_inner, pm, rng_for=(0, 3, 1), inner_for=False
             elif k == 'rep1':
                 node = {'k': 'rep', 'id': g.ident(1), 'meas': [['n', g.tm(0), one]], 'n': 1, 'body': node}
             elif k == 'seq':
-                node = {'k': 'seq', 'id': g.ident(1), 'meas': [], 'subs': [node, A(one, {'A': ['1/2', 'i', '-1']})]}
+                node = {'k': 'seq', 'id': g.ident(1), 'meas': [], 'subs': [node, A(one, {c: ['1/2', 'i', '-1'] for c in out_channels(node)})]}
             elif k == 'rev':
                 node = {'k': 'rev', 'id': g.ident(1), 'sub': node}
             elif k == 'arith':
@@ -752,9 +752,16 @@ def gen_ctor_cases(rng, n):
             c['args'] = [inner]
             c['n'] = rng.choice([0, 1, 2, 3])
         elif op == 'map':
-            inner = g.tree(rng.randint(0, 2), chans, kinds=['seq', 'map', 'map'])
+            # (with a top-level parameter p: chained PARAMETER mappings, e.g. p -> 2p inside and p -> p + 1 outside)
+            with_p = rng.random() < 0.6
+            inner = g.tree(rng.randint(0, 2), chans, kinds=['seq', 'map', 'map'], idxs=['p'] if with_p else [])
             if inner['k'] == 'map' and rng.random() < 0.7:
                 inner['id'] = None
+            if 'p' in free_names(inner):
+                c['params'] = {'p': _fr(rng.choice([0, 1, 2, -1]))}
+                pm = g.pmap(inner, ['p'], p_self=1.0)
+                if pm:
+                    c['pmap'] = pm
             oc = out_channels(inner)
             pool = [x for x in 'ABCXYZ']
             rng.shuffle(pool)
@@ -803,7 +810,10 @@ def gen_ctor_cases(rng, n):
                                                         'subs': [catom() for _ in range(rng.randint(1, 3))]}
             c['args'] = [inner]
             c['extra'] = rng.choice([0, 0, 1, 2, 3])     # pad by this many ticks (0: must return self)
-        ticks = sum(est_ticks(a, step, {'i': 0}) for a in c['args'])
+        env0 = {k: F(v) for k, v in (c.get('params') or {}).items()}
+        if (c.get('params') or any(has_pmap(a) for a in c['args'])) and not times_ok(ctor_explicit(c), step, env0):
+            continue
+        ticks = sum(est_ticks(a, step, dict(env0, i=0)) for a in c['args'])
         if ticks > 40:
             continue
         cases.append(c)
@@ -819,7 +829,10 @@ def ctor_explicit(c):
     if op in ('rep', 'pow'):
         return {'k': 'rep', 'id': None, 'meas': [], 'n': c['n'], 'body': a[0]}
     if op == 'map':
-        return {'k': 'map', 'id': None, 'chmap': dict(c['chmap']), 'mmap': dict(c.get('mmap') or {}), 'sub': a[0]}
+        node = {'k': 'map', 'id': None, 'chmap': dict(c['chmap']), 'mmap': dict(c.get('mmap') or {}), 'sub': a[0]}
+        if c.get('pmap'):
+            node['pmap'] = dict(c['pmap'])
+        return node
     if op == 'paratomic':
         return {'k': 'amc', 'id': None, 'meas': [], 'subs': list(a)}
     if op == 'par':
@@ -854,7 +867,8 @@ def ctor_call(c):
     if op == 'pow':
         return a[0] ** c['n']
     if op == 'map':
-        return a[0].with_mapping(channel_mapping=dict(c['chmap']), measurement_mapping=dict(c.get('mmap') or {}))
+        kw = {'parameter_mapping': {k: str(I._expr(e)) for k, e in c['pmap'].items()}} if c.get('pmap') else {}
+        return a[0].with_mapping(channel_mapping=dict(c['chmap']), measurement_mapping=dict(c.get('mmap') or {}), **kw)
     if op == 'paratomic':
         return a[0].with_parallel_atomic(*a[1:])
     if op == 'par':
